@@ -162,3 +162,25 @@ Proof.
   unfold re_find. rewrite map_length, <- spans_c_spans, map_length.
   pose proof (ends_from_length (length s) _ _ (find_iter_c_ends kf r s (S (S (length s))) 0 None (Nat.le_0_l _) I)) as H. unfold spans_c. lia.
 Qed.
+
+(* bounded output of re_replace with a plain replacement text: the text plus one replacement per match, and there are at most length + 1 matches *)
+Lemma splice_length s t : forall sp pos, (pos <= length s)%nat -> ordered pos (length s) sp ->
+  (length (splice s pos (map span_of sp) t) + pos <= length s + length sp * length t)%nat.
+Proof.
+  induction sp as [|[[a b] c] rest IH]; intros pos Hp H.
+  - cbn [map splice length]. rewrite skipn_length. lia.
+  - destruct H as [[H1 [H2 H3]] H4]. cbn [map splice span_of fst snd]. rewrite !app_length. specialize (IH b H3 H4).
+    assert (L : (length (slice s pos a) <= a - pos)%nat) by (unfold slice; apply firstn_le_length).
+    change (length ((a, b, c) :: rest)) with (S (length rest)). rewrite Nat.mul_succ_l. lia.
+Qed.
+Theorem replace_plain_bounded kf r s t limit : (length (re_replace kf r s t limit) <= length s + S (length s) * length t)%nat.
+Proof.
+  unfold re_replace. cbv zeta. rewrite <- spans_c_spans.
+  pose proof (ends_from_length (length s) _ _ (find_iter_c_ends kf r s (S (S (length s))) 0 None (Nat.le_0_l _) I)) as Hc. fold (spans_c kf r s) in Hc.
+  assert (G : forall sp, ordered 0 (length s) sp -> (length sp <= S (length s))%nat -> (length (splice s 0 (map span_of sp) t) <= length s + S (length s) * length t)%nat).
+  { intros sp Ho Hl. pose proof (splice_length s t sp 0 (Nat.le_0_l _) Ho) as B.
+    assert (length sp * length t <= S (length s) * length t)%nat by (apply Nat.mul_le_mono_r; exact Hl). lia. }
+  destruct limit as [|n].
+  - apply G; [apply spans_c_ordered | lia].
+  - rewrite firstn_map. apply G; [apply ordered_firstn, spans_c_ordered|]. rewrite firstn_length. lia.
+Qed.
